@@ -43,6 +43,7 @@ pub struct Profile {
     pub collide_import: bool,
     pub import_registrations: bool,
     pub bulk: bool,
+    pub nu_paths: bool,
     pub len: (usize, usize),
 }
 
@@ -72,6 +73,7 @@ pub fn profile(name: &str) -> Profile {
         collide_import: false,
         import_registrations: true,
         bulk: false,
+        nu_paths: true,
         len: (30, 60),
     };
     match name {
@@ -678,7 +680,63 @@ impl Runner {
         Ok(())
     }
 
+    /// the nushell path: `.cat` bound to one context, as scripts see it
+    fn gen_nu_cat(&mut self) -> R<()> {
+        let ctx = match self.rng.below(3) {
+            0 => ZERO_CONTEXT.to_u128(),
+            _ => self.pick_ctx_any(),
+        };
+        let (last_id, last_class) = self.pick_id_class();
+        let n_scope = self.model.in_scope(Some(ctx), last_id).count();
+        let limit = match self.rng.below(5) {
+            0 | 1 => None,
+            2 => Some(1usize),
+            3 => Some(n_scope),
+            _ => Some(n_scope + 1),
+        };
+        let mut expr = String::from(".cat");
+        if let Some(l) = last_id {
+            expr.push_str(&format!(" --last-id {}", nu_str(&id_str(l))));
+        }
+        if let Some(l) = limit {
+            expr.push_str(&format!(" --limit {}", l));
+        }
+        expr.push_str(" | each {|f| [$f.id $f.topic $f.context_id]}");
+        let v = self.call(json!({"op": "nu_eval", "ctx": id_str(ctx), "expr": expr}))?;
+        self.res.count("ops.nu_cat");
+        let step = self.step;
+        let Some(rows) = v["value"].as_array() else {
+            self.res.add(step, vec![finding(&["C01"], "nu-cat/error", json!({"expr": expr, "reply": v}))]);
+            return Ok(());
+        };
+        let mut obs = vec![];
+        let mut fs = vec![];
+        for r in rows {
+            let id: Option<Scru128Id> = r[0].as_str().and_then(|s| s.parse().ok());
+            let Some(id) = id else { continue };
+            let key = id.to_u128();
+            // .cat yields records, not digests: identity fields are compared here, the digest is taken from the model
+            match self.model.frames.get(&key) {
+                Some(m) => {
+                    if r[1].as_str() != Some(m.frame.topic.as_str()) || r[2].as_str() != Some(&m.frame.context_id.to_string()) {
+                        fs.push(finding(&["C01"], "nu-cat/frame-fields-differ", json!({"row": r, "expected": m.frame})));
+                    }
+                    obs.push((key, m.digest));
+                }
+                None => obs.push((key, 0)),
+            }
+        }
+        self.res.countn("observations.frames_compared", obs.len() as u64);
+        self.res.seen("read_shapes", format!("nu-cat/ctx/last={}/limit={}", last_class, if limit.is_some() { "some" } else { "none" }));
+        fs.extend(self.model.check_read("nu-cat", Some(ctx), last_id, limit, &obs));
+        self.res.add(step, fs);
+        Ok(())
+    }
+
     fn gen_read(&mut self) -> R<()> {
+        if self.profile.nu_paths && self.rng.chance(200) {
+            return self.gen_nu_cat();
+        }
         let path = if self.rng.chance(500) { "read_sync" } else { "read" };
         let ctx = match self.rng.below(4) {
             0 => None,
@@ -731,15 +789,26 @@ impl Runner {
     fn gen_get(&mut self) -> R<()> {
         let (id, class) = self.pick_id_class();
         let Some(id) = id else { return Ok(()) };
-        let v = self.call(json!({"op": "get", "id": id_str(id)}))?;
-        self.res.count("ops.get");
-        self.res.seen("get_classes", class);
-        let obs = if v["frame"].is_null() {
-            None
+        let obs = if self.profile.nu_paths && self.rng.chance(250) {
+            // `.get <id>` from a script: a record, or an error when there is no such frame
+            let v = self.call(json!({"op": "nu_eval", "ctx": ZERO_CONTEXT.to_string(), "expr": format!(".get {} | get id", nu_str(&id_str(id)))}))?;
+            self.res.count("ops.nu_get");
+            match v["value"].as_str() {
+                Some(got) if got == id_str(id) => self.model.frames.get(&id).map(|m| m.digest).or(Some(0)),
+                Some(_) => Some(0),
+                None => None,
+            }
         } else {
-            let f: Frame = serde_json::from_value(v["frame"].clone()).map_err(|e| SessionError::Harness(e.to_string()))?;
-            Some(frame_digest(&f))
+            let v = self.call(json!({"op": "get", "id": id_str(id)}))?;
+            self.res.count("ops.get");
+            if v["frame"].is_null() {
+                None
+            } else {
+                let f: Frame = serde_json::from_value(v["frame"].clone()).map_err(|e| SessionError::Harness(e.to_string()))?;
+                Some(frame_digest(&f))
+            }
         };
+        self.res.seen("get_classes", class);
         let (fs, _) = self.model.check_get(id, obs, false);
         let step = self.step;
         self.res.add(step, fs);
@@ -749,13 +818,33 @@ impl Runner {
     fn gen_head(&mut self) -> R<()> {
         let topic = self.pick_topic();
         let ctx = self.pick_ctx_any();
-        let v = self.call(json!({"op": "head", "topic": topic, "ctx": id_str(ctx)}))?;
-        self.res.count("ops.head");
-        let obs = if v["frame"].is_null() {
-            None
+        let obs = if self.profile.nu_paths && self.rng.chance(300) {
+            // `.head <topic>` in a script bound to ctx, or bound elsewhere and naming ctx explicitly
+            let explicit = self.rng.chance(500);
+            let (bound, expr) = if explicit {
+                (ZERO_CONTEXT.to_u128(), format!(".head {} --context {} | default null", nu_str(&topic), nu_str(&id_str(ctx))))
+            } else {
+                (ctx, format!(".head {} | default null", nu_str(&topic)))
+            };
+            let v = self.call(json!({"op": "nu_eval", "ctx": id_str(bound), "expr": expr}))?;
+            self.res.count("ops.nu_head");
+            let r = &v["value"];
+            if r.is_null() || !r.is_object() {
+                None
+            } else {
+                let id: Scru128Id = r["id"].as_str().unwrap_or("").parse().unwrap_or(ZERO_CONTEXT);
+                let c: Scru128Id = r["context_id"].as_str().unwrap_or("").parse().unwrap_or(ZERO_CONTEXT);
+                Some((id.to_u128(), r["topic"].as_str().unwrap_or("").to_string(), c.to_u128()))
+            }
         } else {
-            let f: Frame = serde_json::from_value(v["frame"].clone()).map_err(|e| SessionError::Harness(e.to_string()))?;
-            Some((f.id.to_u128(), f.topic.clone(), f.context_id.to_u128()))
+            let v = self.call(json!({"op": "head", "topic": topic, "ctx": id_str(ctx)}))?;
+            self.res.count("ops.head");
+            if v["frame"].is_null() {
+                None
+            } else {
+                let f: Frame = serde_json::from_value(v["frame"].clone()).map_err(|e| SessionError::Harness(e.to_string()))?;
+                Some((f.id.to_u128(), f.topic.clone(), f.context_id.to_u128()))
+            }
         };
         let fs = self.model.check_head(&topic, ctx, obs);
         let step = self.step;
@@ -1238,6 +1327,20 @@ impl Runner {
         self.note_layout(&lay);
         Ok(())
     }
+}
+
+/// a nushell double-quoted string literal for arbitrary text
+pub fn nu_str(t: &str) -> String {
+    let mut o = String::from("\"");
+    for c in t.chars() {
+        if c.is_ascii_alphanumeric() || c == '.' || c == '-' || c == '_' {
+            o.push(c);
+        } else {
+            o.push_str(&format!("\\u{{{:x}}}", c as u32));
+        }
+    }
+    o.push('"');
+    o
 }
 
 fn trim_op(op: &Value) -> Value {
